@@ -178,9 +178,12 @@ class PairIter:
             a, b = (e['args'] if e['k'] == 'opcall' else (e['l'], e['r']))
             x, y = self.amp_expr(a), self.amp_expr(b)
             return {'*': x * y, '/': x / y, '+': x + y, '-': x - y}[e['op']]
-        if SX.is_node(e) and e['k'] == 'call' and len(SX.real_args(e)) == 1 and SX.short(e.get('callee', '')) in ('sqrt', 'norm', 'abs', 'conj'):
+        if SX.is_node(e) and e['k'] == 'call' and len(SX.real_args(e)) == 1 and SX.short(e.get('callee', '')) in ('sqrt', 'norm', 'abs', 'conj', 'real', 'imag'):
             x = self.amp_expr(SX.real_args(e)[0])
-            return {'sqrt': sp.sqrt(x), 'norm': sp.Abs(x) ** 2, 'abs': sp.Abs(x), 'conj': sp.conjugate(x)}[SX.short(e['callee'])]
+            return {'sqrt': sp.sqrt(x), 'norm': sp.Abs(x) ** 2, 'abs': sp.Abs(x), 'conj': sp.conjugate(x), 'real': sp.re(x), 'imag': sp.im(x)}[SX.short(e['callee'])]
+        if SX.is_node(e) and e['k'] == 'mcall' and not SX.real_args(e) and SX.short(e.get('callee', '')) in ('real', 'imag'):
+            x = self.amp_expr(e['obj'])
+            return sp.re(x) if SX.short(e['callee']) == 'real' else sp.im(x)
         if SX.is_node(e) and e['k'] == 'cast':
             return self.amp_expr(e['e'])
         if SX.is_node(e) and e['k'] == 'ref' and e.get('id') in self.cases and e.get('id') not in self.scalars:
